@@ -499,7 +499,9 @@ def main():
                                             "inputs; the classes and the index of the last completed case of the slice are listed"
                                             + ("" if concrete else "; no single case line reproduces it")), "" if concrete else " no-failing-input-found"))
     if (failed_thms or src_hits or not proofs_ok) and not [v for v in violations if v[1] == ""]:
-        violations.append((dict(kind="PROOF", theorems=failed_thms, source_audit=src_hits, build_ok=proofs_ok,
+        # which file and line stopped checking: the bridge theorem (Lemmas/Kernel*.lean) or the property theorem itself
+        where = sorted(set(re.findall(r"error: (StVerif/\S+\.lean:\d+)", blog)))[:8] if not proofs_ok else []
+        violations.append((dict(kind="PROOF", theorems=failed_thms, no_longer_checks_at=where, source_audit=src_hits, build_ok=proofs_ok,
                                 axioms={t: ax.get(t, (False, ["?"]))[1] for t in theorems}, build_log=blog[-3000:] if not proofs_ok else "",
                                 explanation="a proof obligation of this property no longer checks against the regenerated model; the "
                                             "correspondence run found no concrete input on which the property fails"), " no-failing-input-found"))
